@@ -1815,6 +1815,49 @@ fn gen_fatal(r: &mut Rng, max_ev: usize) -> Scenario {
 /// exhaustive small domain: every dataset length 1..=4 over {trade on instrument 0, trade on
 /// instrument 1, L1, reconnecting} compositions chosen by position pattern, both feed modes, one
 /// and two backtests, and the fatal tick at every position
+/// dataset lengths at and around typical batch / buffer / power-of-two boundaries: cheap
+/// trade-only datasets, plain feed, one backtest run alone (the schedule independent fact
+/// "market events processed == dataset, in order, each once" is what is at stake), plus
+/// concurrent batches sharing one 128-event dataset under both feeds
+fn boundary_lengths(em: &mut Emitter, thorough: bool) {
+    let mk = |len: usize| -> Vec<EvSpec> {
+        (0..len)
+            .map(|i| EvSpec::Trade {
+                inst: i % 2,
+                t: 60_000 * (i as i64 + 1),
+                ns: 0,
+                px4: 400 + (i as i64 * 7) % 31,
+                am4: 1 + (i as i64 % 9),
+                buy: i % 3 != 0,
+            })
+            .collect()
+    };
+    let base = |paced: bool, len: usize, nbt: usize, workers: Vec<usize>| Scenario {
+        paced,
+        topo: 0,
+        latency_ms: 0,
+        fee_bp: 10,
+        quote_balance: 1_000_000,
+        base_balance: 1_000,
+        events: mk(len),
+        params: (0..nbt)
+            .map(|i| Params { k: 5 + 2 * i as u64, m: 7 + 4 * i as u64, max_units: 1 + i as u32, lot_milli: 1000, fatal: None })
+            .collect(),
+        workers,
+        ids: 1,
+    };
+    let mut lens = vec![15usize, 16, 17, 31, 32, 63, 64, 65, 127, 128, 129, 192, 255, 256, 257];
+    if thorough {
+        lens.extend([511, 512, 513, 1000, 1023, 1024, 1025, 4096]);
+    }
+    for len in lens {
+        emit(em, "table", &base(false, len, 1, vec![]));
+    }
+    emit(em, "table", &base(false, 128, 3, vec![2, 8]));
+    emit(em, "table", &base(true, 128, 2, vec![8]));
+    emit(em, "table", &base(true, 64, 1, vec![]));
+}
+
 fn table(em: &mut Emitter) {
     let mk = |kinds: &[u8]| -> Vec<EvSpec> {
         let mut t = 0;
@@ -1979,6 +2022,7 @@ fn main() {
             let (n_paced, n_plain, n_adv, n_fatal, max_ev, max_bt) =
                 if thorough { (160, 60, 80, 40, 60, 32) } else { (60, 20, 30, 12, 24, 8) };
             table(&mut em);
+            boundary_lengths(&mut em, thorough);
             for _ in 0..n_paced {
                 let sc = gen_scenario(&mut r, true, max_ev, max_bt, false);
                 emit(&mut em, "random", &sc);
